@@ -406,6 +406,44 @@ PROPS["C16"] = dict(
     note="Bounded by the change-set catalogue. Trusted: engine, z3, the occurrence scanner verifQualified.",
 )
 
+_st = dict(pkg="ariga.io/atlas/sql/sqltool", hdir="sqltool")
+PROPS["C17"] = dict(
+    _st,
+    runs={
+        "quick": [
+            dict(_st, harness="VerifHarness_C17_files2", reach=["reversible", "irreversible"], flags=["-domain"]),
+            dict(_my, harness="VerifHarness_C17_mysql", reach=["reverse"]),
+            dict(_pg, harness="VerifHarness_C17_postgres", reach=["reverse"]),
+            dict(_lt, harness="VerifHarness_C17_sqlite", reach=["reverse", "irreversible"]),
+        ],
+        "thorough": [
+            dict(_st, harness="VerifHarness_C17_files2", reach=["reversible", "irreversible"]),
+            dict(_st, harness="VerifHarness_C17_files3", reach=["reversible", "irreversible"], flags=["-domain"], cross=False),
+            dict(_my, harness="VerifHarness_C17_mysql", reach=["reverse"]),
+            dict(_pg, harness="VerifHarness_C17_postgres", reach=["reverse"]),
+            dict(_lt, harness="VerifHarness_C17_sqlite", reach=["reverse", "irreversible"]),
+        ],
+    },
+    bounds={
+        "quick": "plans of 1..2 changes whose Reverse is nil / a string / an empty list / 1 or 2 statements with one symbolic byte each "
+                 "(letters, digits, space, underscore, comma), optional comments, x {golang-migrate, goose, flyway, dbmate} formatters; planner plans: "
+                 "8 change sets per dialect (MySQL, PostgreSQL, SQLite)",
+        "thorough": "same with up to 3 changes",
+    },
+    assumptions=[
+        "formatter templates are the real parsed text/template trees, evaluated by the engine's template evaluator (tmpleval.go) on interpreter values",
+        "the down file is read back with migrate.Stmts (Atlas itself never reads down sections)",
+        "SQLite's PRAGMA foreign_keys off/on statements around a rebuild are session settings and have nothing to reverse",
+    ],
+    outside="executing up then down on a real engine and inspecting (needs SQLite/MySQL/PostgreSQL); Liquibase rollback comments; reverse statements "
+            "containing quotes, semicolons or newlines (quoting is C07)",
+    claim="For every plan within the bounds, Plan.Reversible is set iff every change yields at least one reverse statement, and the down file or "
+          "section written by each formatter scans to exactly the reverse statements of the changes in reverse order; for the planner catalogue every "
+          "reverse statement is the structural inverse of its forward statement (create/drop table, add/drop column, index, constraint) and a plan with an "
+          "unreversed change (SQLite rebuild) is not reported reversible.",
+    note="Flag and down-file slice of C17; bounded. Trusted: template evaluator, engine, z3, the keyword-level inverse table in the harness.",
+)
+
 NOT_APPLICABLE = {
     "C01": "needs a real SQLite engine executing the planned SQL and pragma-based inspection; neither cgo code nor SQLite's DDL "
            "semantics can be encoded by an SSA-level symbolic executor, and a hand-written catalogue model would verify the model, not Atlas "
